@@ -18,7 +18,7 @@ import (
 
 func TestMain(m *testing.M) { ev.Main(m) }
 
-const rule = "case = a fixed module (packages ., a, a/b, c with known triggers of S/SA/ST/U checks incl. non-default ones, a //lint:ignore'd and a //lint:file-ignore'd problem, an unmatched directive; variants with a type error, an unresolvable import, a malformed directive) + a generated tree of staticcheck.conf files (per directory absent / empty / only another option / checks list / invalid TOML) + generated -checks and -fail lists (absent or lists over inherit, all, *, category globs, prefix globs, exact names, negations, unknown names, mixed case, duplicates) + -f in {text,stylish,json,sarif} + sometimes -show-ignored; oracle = reference model of the documented algebra (outermost-to-innermost merge with inherit splicing onto the default 'all minus non-default', CLI last, left-to-right case-insensitive evaluation) applied to the problems of a `-checks \"*\" -show-ignored -f json` run of the same tree, plus the exit status rule and per-format parsers; non-trivial = -checks has 'inherit' and a negation, some staticcheck.conf has 'inherit', and the model's allow sets of two packages differ; distinct by hash of (conf tree, -checks, -fail)"
+const rule = "case = a fixed module (packages ., a, a/b, c with known triggers of S/SA/ST/U checks incl. non-default ones, a //lint:ignore'd and a //lint:file-ignore'd problem; variants with a type error, an unresolvable import, an unmatched //lint:ignore directive, a malformed directive) + a generated tree of staticcheck.conf files (per directory absent / empty / only another option / checks list / invalid TOML) + generated -checks and -fail lists (absent or lists over inherit, all, *, category globs, prefix globs, exact names, negations, unknown names, mixed case, duplicates) + -f in {text,stylish,json,sarif} + sometimes -show-ignored; oracle = reference model of the documented algebra (outermost-to-innermost merge with inherit splicing onto the default 'all minus non-default', CLI last, left-to-right case-insensitive evaluation) applied to the problems of a `-checks \"*\" -show-ignored -f json` run of the same tree, plus the exit status rule and per-format parsers; non-trivial = -checks has 'inherit' and a negation, some staticcheck.conf has 'inherit', and the model's allow sets of two packages differ; distinct by hash of (conf tree, -checks, -fail)"
 
 // ---------------------------------------------------------------- case
 
@@ -137,7 +137,21 @@ func loadUniverse() error {
 // ---------------------------------------------------------------- generator
 
 type genOpts struct {
-	mixedCaseInherit bool // allowed only when the known finding is absent
+	mixedCaseInherit bool     // allowed only when the known finding is absent
+	variants         []string // weighted list of source variants
+}
+
+// variantWeights: every first analysis of a variant is a cold run, so a quick
+// shard uses the base sources and ONE other variant chosen by its shard index;
+// the thorough tier uses all variants in every shard.
+func variantWeights() []string {
+	others := []string{"typeerr", "unmatched", "importerr", "malformed"}
+	w := []string{"base", "base", "base", "base", "base", "base"}
+	if ev.Thorough() || os.Getenv("C11_ALL_VARIANTS") != "" {
+		return append(w, "base", "base", "base", "base", "base", "base", "typeerr", "typeerr", "typeerr", "importerr", "importerr", "unmatched", "unmatched", "unmatched", "malformed", "malformed")
+	}
+	o := others[ev.Shard()%len(others)]
+	return append(w, o, o, o, o)
 }
 
 func mangle(t *rapid.T, s string) string {
@@ -237,15 +251,30 @@ func genList(t *rapid.T, allowInherit, inheritFirst, needNeg bool, o genOpts) []
 
 func genCase(t *rapid.T, o genOpts) *Case {
 	c := &Case{}
-	c.Variant = rapid.SampledFrom([]string{"base", "base", "base", "base", "base", "base", "base", "base", "base", "base", "base", "base", "base", "typeerr", "typeerr", "importerr", "malformed", "malformed", "malformed", "malformed"}).Draw(t, "variant")
+	c.Variant = rapid.SampledFrom(o.variants).Draw(t, "variant")
 	layered := rapid.Bool().Draw(t, "layered")
+	forced := "a"
+	if layered {
+		forced = rapid.SampledFrom([]string{"a", "a", "c", "a/b"}).Draw(t, "forced")
+	}
 	malformedConf := rapid.IntRange(0, 19).Draw(t, "malformedconf") == 0
+	// at most one directory sets an option other than checks: the reference run
+	// is memoised per (variant, non-checks content of the tree)
+	otherDir := rapid.SampledFrom([]string{"-", "-", "-", "-", "-", "-", "", "a", "a/b", "c"}).Draw(t, "otherdir")
 	for _, d := range pkgDirs {
-		kind := rapid.SampledFrom([]string{"absent", "absent", "absent", "absent", "checks", "checks", "checks", "checks", "checks", "checks+other", "other", "empty", "malformed"}).Draw(t, "conf "+d)
+		kind := rapid.SampledFrom([]string{"absent", "absent", "absent", "absent", "checks", "checks", "checks", "checks", "checks", "checks", "empty", "malformed"}).Draw(t, "conf "+d)
 		if kind == "malformed" && !malformedConf {
 			kind = "absent"
 		}
-		if layered && d == "a" && kind == "absent" {
+		if d == otherDir {
+			switch kind {
+			case "checks":
+				kind = "checks+other"
+			case "absent", "empty":
+				kind = "other"
+			}
+		}
+		if layered && d == forced && !strings.HasPrefix(kind, "checks") {
 			kind = "checks"
 		}
 		cf := Conf{Dir: d}
@@ -253,8 +282,8 @@ func genCase(t *rapid.T, o genOpts) *Case {
 		case "absent":
 			continue
 		case "checks", "checks+other":
-			first := rapid.IntRange(0, 99).Draw(t, "inheritfirst") < 55 || (layered && d == "a")
-			l := genList(t, true, first, false, o)
+			first := rapid.IntRange(0, 99).Draw(t, "inheritfirst") < 55 || (layered && d == forced)
+			l := genList(t, true, first, layered && d == forced, o)
 			cf.Checks = &l
 			cf.Other = kind == "checks+other"
 		case "other":
@@ -308,7 +337,9 @@ func (w *workspace) pAll(c *Case) ([]Prob, error) {
 	files := c.confFiles(false)
 	key := c.Variant
 	for _, d := range sortedKeys(files) {
-		key += "|" + d + "=" + files[d]
+		if files[d] != "" { // an empty file sets nothing
+			key += "|" + d + "=" + files[d]
+		}
 	}
 	if ps, ok := w.pall[key]; ok {
 		return ps, nil
@@ -338,8 +369,8 @@ func (w *workspace) pAll(c *Case) ([]Prob, error) {
 			return nil, fmt.Errorf("reference run reports %q which is not a known check", ps[i].Code)
 		}
 	}
-	if len(ps) < 3 {
-		return nil, fmt.Errorf("reference run found only %d problems: %s %s", len(ps), res.stdout, res.stderr)
+	if len(ps) == 0 {
+		return nil, fmt.Errorf("reference run found no problems: %s %s", res.stdout, res.stderr)
 	}
 	w.pall[key] = ps
 	return ps, nil
@@ -539,13 +570,14 @@ func evaluate(w *workspace, c *Case) verdict {
 			if !st.present {
 				fmt.Fprintf(&sb, "stylish output has no summary line\n")
 			} else {
-				if st.errors != exp.errors || st.warnings != exp.warnings || st.ignored != exp.hidden {
-					// with -show-ignored the visible ignored problems are neither errors nor warnings
-					fmt.Fprintf(&sb, "stylish summary says %d errors, %d warnings, %d ignored; expected %d errors, %d warnings, %d ignored (not shown)\n",
-						st.errors, st.warnings, st.ignored, exp.errors, exp.warnings, exp.hidden)
+				// ignored problems are neither errors nor warnings, shown or not
+				ignored := exp.hidden + len(exp.printed) - exp.errors - exp.warnings
+				if st.errors != exp.errors || st.warnings != exp.warnings || st.ignored != ignored {
+					fmt.Fprintf(&sb, "stylish summary says %d errors, %d warnings, %d ignored; expected %d errors, %d warnings, %d ignored\n",
+						st.errors, st.warnings, st.ignored, exp.errors, exp.warnings, ignored)
 				}
 				if st.total != len(exp.printed)+exp.hidden {
-					fmt.Fprintf(&sb, "stylish summary says %d problems; %d are printed and %d ignored\n", st.total, len(exp.printed), exp.hidden)
+					fmt.Fprintf(&sb, "stylish summary says %d problems; %d are printed and %d ignored ones are hidden\n", st.total, len(exp.printed), exp.hidden)
 				}
 			}
 		}
@@ -564,8 +596,13 @@ func evaluate(w *workspace, c *Case) verdict {
 		wantK, gotK := keys(exp.printed, full), keys(got, full)
 		if d := diffKeys(wantK, gotK); d != "" {
 			fmt.Fprintf(&sb, "printed problems differ from the problems of all checks restricted to the documented selection (%d expected, %d printed):\n%s", len(wantK), len(gotK), d)
+			pretty := &universe{prettyDefault: true}
 			for _, d := range pkgDirs {
-				fmt.Fprintf(&sb, "  package %q: spliced list %v\n", "./"+d, uni.resolved(d, confMap(c), c.Checks))
+				l := fmt.Sprint(pretty.resolved(d, confMap(c), c.Checks))
+				if len(l) > 400 {
+					l = l[:400] + "…"
+				}
+				fmt.Fprintf(&sb, "  package %q: list after splicing %s\n", "./"+d, l)
 			}
 		}
 	}
@@ -843,7 +880,7 @@ func TestSelection(t *testing.T) {
 	ev.Extra("probe_inherit_case_defect_present", d.inheritCase)
 	ev.Extra("checks_in_universe", len(uni.names))
 	ev.Extra("non_default_checks", strings.Join(uni.nonDefault, ","))
-	o := genOpts{mixedCaseInherit: !d.inheritCase}
+	o := genOpts{mixedCaseInherit: !d.inheritCase, variants: variantWeights()}
 	ev.Check(t, "TestSelection", func(rt *rapid.T) {
 		c := genCase(rt, o)
 		b, _ := json.Marshal(c)
